@@ -296,9 +296,33 @@ def flow(n, erase=False, in_seq=False):
     return (tag + ' ' + body) if tag else body
 
 
+_BLOCK_OK = re.compile(r'^[^\s#][^\n]*(\n[^\s][^\n]*)*\n?$')
+
+
+def _block_scalar(n, ind, erase):
+    """literal / folded block scalar for a string node, or None if the text does not lend itself to it"""
+    v = n.get('v')
+    st = n.get('style')
+    if n['t'] != 'sc' or not isinstance(v, str) or st not in ('lit', 'fold') or n.get('vdel'):
+        return None
+    if not _BLOCK_OK.match(v) or not v.isprintable() and '\n' not in v or any(l != l.rstrip() for l in v.split('\n')) or not v.replace('\n', '').isprintable():
+        return None
+    if st == 'fold' and '\n' in v.rstrip('\n'):
+        return None
+    ind_char = '|' if st == 'lit' else '>'
+    chomp = '' if v.endswith('\n') else '-'
+    tag = '' if erase else tag_of(n)
+    body = v[:-1] if v.endswith('\n') else v
+    pad = ' ' * ind
+    return ((tag + ' ') if tag else '') + ind_char + chomp, [pad + l for l in body.split('\n')]
+
+
 def _block_lines(n, ind, erase, rnd_flow):
     """returns (head, lines): head goes on the introducing line, lines follow"""
     t = n['t']
+    bs = _block_scalar(n, ind, erase)
+    if bs is not None:
+        return bs
     if t == 'sp' or t == 'sc' or not n['items'] or rnd_flow(n):
         return flow(n, erase), []
     tag = '' if erase else tag_of(n)
